@@ -112,6 +112,9 @@ Proof.
   - rewrite in_app_iff. simpl. intuition.
 Qed.
 
+Section WithVariant.
+Variable dc : bool.
+
 (* -------------------------------------------------- tables <-> specification *)
 Definition known (x : tstate) : bool := match x with TUnknown => false | _ => true end.
 Definition boxof (x : tstate) : option box :=
@@ -190,7 +193,7 @@ Qed.
 
 (* ---------------------------------------------------------------- status *)
 Lemma status_ok : forall s sp c t, Rel s sp -> SI sp -> cst sp c = CConnected ->
-  status true c t s = Ok s (snd (sstep sp (Status c t))).
+  status (Fix dc) c t s = Ok s (snd (sstep dc sp (Status c t))).
 Proof.
   intros s sp c t R S C. destruct (connected_clients _ _ _ R C) as [ts [G I]].
   unfold status. rewrite G, (unk_spec _ _ _ _ _ R G I). simpl.
@@ -271,6 +274,57 @@ Proof.
   - rewrite E1. apply (r_nodup _ _ R).
 Qed.
 
+Lemma own_open_forget : forall sp t c t',
+  own_open (forget sp t) c t' = if t' =? t then false else own_open sp c t'.
+Proof. intros. unfold own_open, forget, upd; simpl. deq t' t; reflexivity. Qed.
+
+(* [Fix true]: the cancelled task disappears from all four tables *)
+Lemma Rel_forget : forall s s' sp c t ts,
+  Rel s sp -> SI sp -> own_open sp c t = true -> get c (clients s) = Some ts ->
+  counter s' = counter s -> up s' = up s ->
+  (forall t', get t' (tasks s') = if t' =? t then None else get t' (tasks s)) ->
+  (forall mb, get mb (m2t s') = if mb =? mbx sp t then None else get mb (m2t s)) ->
+  (forall mb, get mb (boxes s') = if mb =? mbx sp t then None else get mb (boxes s)) ->
+  (forall c', get c' (clients s') = if c' =? c then Some (srem t ts) else get c' (clients s)) ->
+  NoDup (keys (tasks s')) ->
+  Rel s' (forget sp t).
+Proof.
+  intros s s' sp c t ts R S O G E3 E4 HT HM HB HC ND.
+  destruct (open_lookup _ _ _ _ R S O) as [L1 [L2 L3]].
+  destruct (own_open_inv _ _ _ O) as [OP OW].
+  constructor.
+  - intros t'. rewrite HT, (r_tasks _ _ R). simpl. unfold upd. deq t' t; auto.
+  - intros mb. rewrite HM, (r_m2t _ _ R). simpl. unfold upd. deq mb (mbx sp t); auto.
+  - intros mb. rewrite HB. simpl. unfold upd. deq mb (mbx sp t); auto.
+    rewrite (r_boxes _ _ R). destruct (tom sp mb) eqn:T; auto.
+    deq n t; auto. destruct (si_tom _ S _ _ T). congruence.
+  - intros c'. rewrite HC. pose proof (r_clients _ _ R c') as RC. deq c' c.
+    + rewrite G in RC. destruct RC as [RC1 RC2]. split; auto. intros t'.
+      rewrite In_srem, own_open_forget, RC2. deq t' t; [split; [tauto|discriminate]|tauto].
+    + destruct (get c' (clients s)); auto. destruct RC as [RC1 RC2]. split; auto. intros t'.
+      rewrite own_open_forget, RC2. deq t' t; [|tauto].
+      unfold own_open. deq (owner sp t) c'; try congruence. rewrite andb_false_r. tauto.
+  - rewrite E3. apply (r_counter _ _ R).
+  - rewrite E4. apply (r_up _ _ R).
+  - exact ND.
+Qed.
+
+Lemma SI_forget : forall sp t, SI sp -> known (st sp t) = true -> SI (forget sp t).
+Proof.
+  intros sp t [A B C] K. destruct (B _ K) as [T _]. constructor; simpl; unfold upd; intros.
+  - deq mb (mbx sp t); try discriminate. destruct (A _ _ H) as [A1 A2].
+    deq t0 t; [congruence|auto].
+  - deq t0 t; try discriminate. destruct (B _ H) as [B1 B2]. split; auto.
+    destruct (mbx sp t0 =? mbx sp t) eqn:Q; auto. apply Nat.eqb_eq in Q. rewrite Q in B1. congruence.
+  - deq mb (mbx sp t); try discriminate. eauto.
+Qed.
+
+(* the specification's effect of an effective cancel, in both repaired variants *)
+Definition cancelled (sp : spec) (t : nat) : spec := if dc then forget sp t else set_st sp t TCancelled.
+
+Lemma SI_cancelled : forall sp t, SI sp -> known (st sp t) = true -> SI (cancelled sp t).
+Proof. intros. unfold cancelled. destruct dc; [apply SI_forget|apply SI_set_st]; auto. Qed.
+
 Lemma kn_spec : forall s sp c t ts, Rel s sp ->
   get c (clients s) = Some ts -> (forall t, In t ts <-> own_open sp c t = true) ->
   mem t ts && haskey t (tasks s) = own_open sp c t.
@@ -281,29 +335,34 @@ Qed.
 
 (* ---------------------------------------------------------------- cancel *)
 Lemma cancel_fix_ok : forall s sp c t, Rel s sp -> SI sp -> cst sp c = CConnected ->
-  exists s', cancel_fix c t s =
+  exists s', cancel_fix dc c t s =
              Ok s' ((if own_open sp c t then [OBcast (mbx sp t)] else []) ++ ack c s)
-    /\ Rel s' (if own_open sp c t then set_st sp t TCancelled else sp)
+    /\ Rel s' (if own_open sp c t then cancelled sp t else sp)
     /\ closed s' = closed s.
 Proof.
   intros s sp c t R S C. destruct (connected_clients _ _ _ R C) as [ts [G I]].
   unfold cancel_fix. rewrite G, (kn_spec _ _ _ _ _ R G I).
   destruct (own_open sp c t) eqn:O.
-  - destruct (open_lookup _ _ _ _ R S O) as [A [B _]]. rewrite A, B.
+  - destruct (open_lookup _ _ _ _ R S O) as [A [B T]]. rewrite A, B.
     destruct (own_open_inv _ _ _ O) as [OP _].
     assert (exists b, boxof (st sp t) = Some b) as [b Hb]
       by (destruct (st sp t); simpl in *; try discriminate; eauto).
-    rewrite Hb. eexists. split; [reflexivity|]. split; [|reflexivity].
-    eapply Rel_closeout with (c := c) (ts := ts); eauto; simpl; intros.
-    + apply get_del. + apply get_set.
+    rewrite Hb. unfold cancelled. destruct dc.
+    + rewrite (r_m2t _ _ R), T. eexists. split; [reflexivity|]. split; [|reflexivity].
+      eapply Rel_forget with (c := c) (ts := ts); eauto; simpl; intros.
+      * apply get_del. * apply get_del. * apply get_del. * apply get_set.
+      * apply keys_del, (r_nodup _ _ R).
+    + eexists. split; [reflexivity|]. split; [|reflexivity].
+      eapply Rel_closeout with (c := c) (ts := ts); eauto; simpl; intros.
+      * apply get_del. * apply get_set.
   - exists s. auto.
 Qed.
 
 (* --------------------------------------------------- request on an open id *)
 Lemma request_open_ok : forall s sp c t, Rel s sp -> SI sp -> cst sp c = CConnected ->
   own_open sp c t = true ->
-  exists s', request true c t s = Ok s' (snd (sstep sp (Request c t)))
-    /\ Rel s' (fst (sstep sp (Request c t))) /\ closed s' = closed s.
+  exists s', request (Fix dc) c t s = Ok s' (snd (sstep dc sp (Request c t)))
+    /\ Rel s' (fst (sstep dc sp (Request c t))) /\ closed s' = closed s.
 Proof.
   intros s sp c t R S C O. destruct (connected_clients _ _ _ R C) as [ts [G I]].
   unfold request. rewrite G, (unk_spec _ _ _ _ _ R G I). simpl. rewrite O. simpl.
@@ -319,8 +378,8 @@ Qed.
 
 (* ------------------------------------------------------ RESULT from below *)
 Lemma result_ok : forall s sp mb v, Rel s sp -> SI sp ->
-  exists s', result mb v s = Ok s' (snd (sstep sp (Result mb v)))
-    /\ Rel s' (fst (sstep sp (Result mb v))) /\ closed s' = closed s.
+  exists s', result mb v s = Ok s' (snd (sstep dc sp (Result mb v)))
+    /\ Rel s' (fst (sstep dc sp (Result mb v))) /\ closed s' = closed s.
 Proof.
   intros s sp mb v R S. unfold result. simpl. rewrite (r_boxes _ _ R).
   destruct (tom sp mb) as [t|] eqn:T; [|exists s; auto].
@@ -348,7 +407,7 @@ Qed.
 (* ----------------------------------------------------------------- submit *)
 Lemma new_task_ok : forall s sp c t, Rel s sp -> SI sp -> cst sp c = CConnected -> st sp t = TUnknown ->
   exists s', new_task c t s = Ok s' [OSched (count sp)]
-    /\ Rel s' (fst (sstep sp (Submit c t))) /\ SI (fst (sstep sp (Submit c t))) /\ closed s' = closed s.
+    /\ Rel s' (fst (sstep dc sp (Submit c t))) /\ SI (fst (sstep dc sp (Submit c t))) /\ closed s' = closed s.
 Proof.
   intros s sp c t R S C U. destruct (connected_clients _ _ _ R C) as [ts [G I]].
   unfold new_task. simpl. rewrite G, (r_counter _ _ R).
@@ -385,29 +444,50 @@ Proof.
 Qed.
 
 (* ------------------------------------------------------------- disconnect *)
+Definition cancel1 (sp : spec) (c t : nat) : spec := if own_open sp c t then cancelled sp t else sp.
+
 Fixpoint cancel_all (sp : spec) (c : nat) (ts : list nat) : spec :=
   match ts with
   | [] => sp
-  | t :: r => cancel_all (if own_open sp c t then set_st sp t TCancelled else sp) c r
+  | t :: r => cancel_all (cancel1 sp c t) c r
   end.
 
 Lemma answers_app : forall a b, answers (a ++ b) = answers a ++ answers b.
 Proof. intros. apply filter_app. Qed.
 
+Lemma SI_cancel1 : forall sp c t, SI sp -> SI (cancel1 sp c t).
+Proof.
+  intros. unfold cancel1. destruct (own_open sp c t) eqn:O; auto.
+  apply SI_cancelled; auto. apply open_known. apply (own_open_inv _ _ _ O).
+Qed.
+
+Lemma cancel1_fields : forall sp c t,
+  owner (cancel1 sp c t) = owner sp /\ mbx (cancel1 sp c t) = mbx sp
+  /\ cst (cancel1 sp c t) = cst sp /\ count (cancel1 sp c t) = count sp.
+Proof. intros. unfold cancel1, cancelled. destruct (own_open sp c t); auto. destruct dc; auto. Qed.
+
+(* the state of one task after one cancel step *)
+Lemma cancel1_st : forall sp c t t',
+  st (cancel1 sp c t) t' =
+  if own_open sp c t && (t' =? t) then (if dc then TUnknown else TCancelled) else st sp t'.
+Proof.
+  intros. unfold cancel1, cancelled. destruct (own_open sp c t); simpl; auto.
+  destruct dc; simpl; unfold upd; destruct (t' =? t); reflexivity.
+Qed.
+
 Lemma cancel_loop_ok : forall ts s sp c, Rel s sp -> SI sp -> cst sp c = CConnected -> In c (closed s) ->
-  exists s' o, foreach ts (cancel_fix c) s = Ok s' o /\ answers o = []
+  exists s' o, foreach ts (cancel_fix dc c) s = Ok s' o /\ answers o = []
     /\ Rel s' (cancel_all sp c ts) /\ SI (cancel_all sp c ts) /\ closed s' = closed s.
 Proof.
   induction ts as [|t r IH]; intros s sp c R S C CL; simpl.
   - exists s, []. auto.
   - destruct (cancel_fix_ok s sp c t R S C) as [s1 [E1 [R1 C1]]].
-    set (sp1 := if own_open sp c t then set_st sp t TCancelled else sp) in *.
-    assert (S1 : SI sp1).
-    { unfold sp1. destruct (own_open sp c t) eqn:O; auto.
-      apply SI_set_st; auto. apply open_known. apply (own_open_inv _ _ _ O). }
-    assert (CC : cst sp1 c = CConnected) by (unfold sp1; destruct (own_open sp c t); auto).
+    fold (cancel1 sp c t) in R1.
+    pose proof (SI_cancel1 sp c t S) as S1.
+    assert (CC : cst (cancel1 sp c t) c = CConnected).
+    { destruct (cancel1_fields sp c t) as [_ [_ [X _]]]. rewrite X. exact C. }
     assert (CL1 : In c (closed s1)) by (rewrite C1; auto).
-    destruct (IH s1 sp1 c R1 S1 CC CL1) as [s2 [o2 [E2 [A2 [R2 [S2 C2]]]]]].
+    destruct (IH s1 _ c R1 S1 CC CL1) as [s2 [o2 [E2 [A2 [R2 [S2 C2]]]]]].
     rewrite E1. simpl. rewrite E2. eexists. eexists. split; [reflexivity|].
     split; [|split; [exact R2|split; [exact S2|congruence]]].
     rewrite !answers_app, A2. unfold ack. apply mem_In in CL. rewrite CL.
@@ -416,39 +496,49 @@ Qed.
 
 Lemma cancel_all_fields : forall ts sp c,
   owner (cancel_all sp c ts) = owner sp /\ mbx (cancel_all sp c ts) = mbx sp
-  /\ tom (cancel_all sp c ts) = tom sp /\ cst (cancel_all sp c ts) = cst sp
-  /\ count (cancel_all sp c ts) = count sp.
+  /\ cst (cancel_all sp c ts) = cst sp /\ count (cancel_all sp c ts) = count sp.
 Proof.
   induction ts as [|t r IH]; intros; simpl; auto.
-  destruct (IH (if own_open sp c t then set_st sp t TCancelled else sp) c) as [A [B [C [D E]]]].
-  rewrite A, B, C, D, E. destruct (own_open sp c t); auto.
+  destruct (IH (cancel1 sp c t) c) as [A [B [D E]]].
+  destruct (cancel1_fields sp c t) as [A' [B' [D' E']]].
+  rewrite A, B, D, E. auto.
 Qed.
 
 Lemma cancel_all_other : forall ts sp c t, owner sp t <> c -> st (cancel_all sp c ts) t = st sp t.
 Proof.
   induction ts as [|t0 r IH]; intros; simpl; auto.
   rewrite IH.
-  - destruct (own_open sp c t0) eqn:O; auto. simpl. unfold upd. deq t t0; auto.
+  - rewrite cancel1_st. destruct (own_open sp c t0) eqn:O; auto. simpl. deq t t0; auto.
     apply own_open_inv in O. tauto.
-  - destruct (own_open sp c t0); auto.
+  - destruct (cancel1_fields sp c t0) as [A _]. rewrite A. exact H.
 Qed.
 
 Lemma cancel_all_never_opens : forall ts sp c t,
   is_open (st (cancel_all sp c ts) t) = true -> is_open (st sp t) = true.
 Proof.
   induction ts as [|t0 r IH]; intros sp c t H; simpl in *; auto.
-  apply IH in H. destruct (own_open sp c t0); auto. simpl in H. unfold upd in H.
-  deq t t0; auto. discriminate.
+  apply IH in H. rewrite cancel1_st in H.
+  destruct (own_open sp c t0 && (t =? t0)); auto. destruct dc; discriminate.
+Qed.
+
+Lemma cancel_all_unknown_stays : forall ts sp c t,
+  known (st sp t) = false -> known (st (cancel_all sp c ts) t) = false.
+Proof.
+  induction ts as [|t0 r IH]; intros sp c t H; simpl in *; auto.
+  apply IH. rewrite cancel1_st. destruct (own_open sp c t0) eqn:O; auto. simpl. deq t t0; auto.
+  apply own_open_inv in O. destruct O as [O _]. apply open_known in O. congruence.
 Qed.
 
 Lemma cancel_all_closed : forall ts sp c t, In t ts -> own_open (cancel_all sp c ts) c t = false.
 Proof.
   induction ts as [|t0 r IH]; intros sp c t H; simpl in *; [contradiction|].
   destruct H as [H|H]; [subst t0|auto].
-  set (sp1 := if own_open sp c t then set_st sp t TCancelled else sp).
+  set (sp1 := cancel1 sp c t).
   assert (F : own_open sp1 c t = false).
-  { unfold sp1. destruct (own_open sp c t) eqn:O; auto.
-    rewrite own_open_set_st, Nat.eqb_refl. reflexivity. }
+  { unfold own_open, sp1. rewrite cancel1_st, Nat.eqb_refl, andb_true_r.
+    destruct (own_open sp c t) eqn:O.
+    - destruct dc; reflexivity.
+    - destruct (cancel1_fields sp c t) as [A _]. rewrite A. exact O. }
   destruct (own_open (cancel_all sp1 c r) c t) eqn:O; auto.
   apply own_open_inv in O. destruct O as [O1 O2].
   apply cancel_all_never_opens in O1.
@@ -465,6 +555,32 @@ Proof.
   destruct (cancel_all_fields ts sp c) as [A _]. rewrite A in O2.
   assert (X : own_open sp c t = true) by (unfold own_open; rewrite O1, O2, Nat.eqb_refl; reflexivity).
   apply H in X. rewrite (cancel_all_closed _ _ _ _ X) in O. discriminate.
+Qed.
+
+(* mailbox -> task after the loop: entries of tasks that were forgotten are gone, nothing else changes *)
+Lemma cancel_all_tom : forall ts sp c mb, SI sp ->
+  tom (cancel_all sp c ts) mb =
+  match tom sp mb with
+  | Some t => if known (st (cancel_all sp c ts) t) then Some t else None
+  | None => None
+  end.
+Proof.
+  induction ts as [|t0 r IH]; intros sp c mb S; simpl.
+  - destruct (tom sp mb) eqn:T; auto. destruct (si_tom _ S _ _ T) as [K _]. rewrite K. reflexivity.
+  - rewrite (IH _ c mb (SI_cancel1 sp c t0 S)).
+    assert (TM : tom (cancel1 sp c t0) mb =
+                 if own_open sp c t0 && dc && (mb =? mbx sp t0) then None else tom sp mb).
+    { unfold cancel1, cancelled. destruct (own_open sp c t0); simpl; auto.
+      destruct dc; simpl; auto. }
+    rewrite TM. destruct (own_open sp c t0) eqn:O; simpl; auto.
+    destruct dc eqn:DC; simpl; auto.
+    pose proof (open_known _ (proj1 (own_open_inv _ _ _ O))) as K0.
+    destruct (si_known _ S _ K0) as [T0 _].
+    destruct (mb =? mbx sp t0) eqn:Q.
+    + apply Nat.eqb_eq in Q. subst mb. rewrite T0.
+      rewrite cancel_all_unknown_stays; auto.
+      rewrite cancel1_st, O, Nat.eqb_refl, DC. reflexivity.
+    + reflexivity.
 Qed.
 
 Lemma pop_loop : forall l s,
@@ -522,7 +638,7 @@ Lemma Rel_with_closed : forall s sp x, Rel s sp -> Rel (with_closed s x) sp.
 Proof. intros s sp x [A B C D E F G]. constructor; auto. Qed.
 
 Lemma disconnect_ok : forall s sp c, Inv s sp -> cst sp c = CConnected ->
-  exists s' o, disconnect true c s = Ok s' o /\ answers o = [] /\ Inv s' (drop sp c).
+  exists s' o, disconnect (Fix dc) c s = Ok s' o /\ answers o = [] /\ Inv s' (drop sp c).
 Proof.
   intros s sp c [R [S CO]] C.
   set (s1 := with_closed s (c :: closed s)).
@@ -531,7 +647,11 @@ Proof.
   assert (CL : In c (closed s1)) by (simpl; auto).
   destruct (cancel_loop_ok ts s1 sp c R1 S C CL) as [s2 [o2 [E2 [A2 [R2 [S2 C2]]]]]].
   set (sp2 := cancel_all sp c ts) in *.
-  destruct (cancel_all_fields ts sp c) as [Fo [Fm [Ft [Fc Fn]]]]. fold sp2 in Fo, Fm, Ft, Fc, Fn.
+  destruct (cancel_all_fields ts sp c) as [Fo [Fm [Fc Fn]]]. fold sp2 in Fo, Fm, Fc, Fn.
+  assert (Ft : forall mb, tom sp2 mb = match tom sp mb with
+                                       | Some t => if known (st sp2 t) then Some t else None
+                                       | None => None end)
+    by (intros; apply cancel_all_tom; auto).
   assert (F2 : forall t, owner sp t <> c -> st sp2 t = st sp t) by (intros; apply cancel_all_other; auto).
   assert (F3 : forall t, own_open sp2 c t = false).
   { apply cancel_all_done. intros t O. apply I. exact O. }
@@ -574,25 +694,36 @@ Proof.
     + (* tasks *)
       intros t. rewrite B7. simpl. destruct (existsb (fun p => fst p =? t) l) eqn:X.
       * apply PT in X. destruct X as [_ OW]. rewrite OW, Nat.eqb_refl. reflexivity.
-      * rewrite (r_tasks _ _ R2), Fm, Fo. deq (owner sp t) c.
+      * rewrite (r_tasks _ _ R2), Fm, Fo.
+        destruct (owner sp t =? c) eqn:OWb; pose proof OWb as OW; [apply Nat.eqb_eq in OW|apply Nat.eqb_neq in OW].
         -- destruct (known (st sp2 t)) eqn:K; auto.
            assert (Y : existsb (fun p : nat * (nat * nat) => fst p =? t) l = true) by (apply PT; auto).
            congruence.
         -- rewrite F2; auto.
     + (* m2t *)
-      intros mb. rewrite B8. simpl. destruct (existsb (fun p => fst (snd p) =? mb) l) eqn:X.
-      * apply PM in X. destruct X as [t [K [OW M]]].
-        destruct (si_known _ S2 _ K) as [T _]. rewrite Fm, Ft, M in T. rewrite T, OW, Nat.eqb_refl. reflexivity.
-      * rewrite (r_m2t _ _ R2), Ft. destruct (tom sp mb) eqn:T; auto.
-        deq (owner sp n) c; auto.
-        assert (Y : existsb (fun p : nat * (nat * nat) => fst (snd p) =? mb) l = true).
-        { apply PM. exists n. rewrite <- Ft in T. destruct (si_tom _ S2 _ _ T) as [K M]. rewrite Fm in M. auto. }
-        congruence.
+      intros mb. rewrite B8. simpl. rewrite (r_m2t _ _ R2), Ft.
+      destruct (tom sp mb) as [t|] eqn:T.
+      * destruct (si_tom _ S _ _ T) as [K M].
+        destruct (owner sp t =? c) eqn:OWb; pose proof OWb as OW; [apply Nat.eqb_eq in OW|apply Nat.eqb_neq in OW].
+        -- destruct (known (st sp2 t)) eqn:K2.
+           ++ assert (Y : existsb (fun p : nat * (nat * nat) => fst (snd p) =? mb) l = true)
+                by (apply PM; exists t; auto).
+              rewrite Y. reflexivity.
+           ++ destruct (existsb (fun p => fst (snd p) =? mb) l); reflexivity.
+        -- rewrite (F2 _ OW), K.
+           destruct (existsb (fun p => fst (snd p) =? mb) l) eqn:X; auto.
+           apply PM in X. destruct X as [t' [K' [OW' M']]].
+           destruct (si_known _ S2 _ K') as [T' _]. rewrite Fm, Ft, M', T in T'.
+           rewrite (F2 _ OW), K in T'. congruence.
+      * destruct (existsb (fun p => fst (snd p) =? mb) l); reflexivity.
     + (* boxes *)
-      intros mb. rewrite B2. simpl. rewrite (r_boxes _ _ R2), Ft. destruct (tom sp mb) eqn:T; auto.
-      deq (owner sp n) c.
-      * apply not_open_box. pose proof (F3 n) as Y. unfold own_open in Y. rewrite Fo, Nat.eqb_refl, andb_true_r in Y. exact Y.
-      * rewrite F2; auto. deq (owner sp n) c; [congruence|reflexivity].
+      intros mb. rewrite B2. simpl. rewrite (r_boxes _ _ R2), Ft. destruct (tom sp mb) as [t|] eqn:T; auto.
+      destruct (si_tom _ S _ _ T) as [K M].
+      destruct (owner sp t =? c) eqn:OWb; pose proof OWb as OW; [apply Nat.eqb_eq in OW|apply Nat.eqb_neq in OW].
+      * destruct (known (st sp2 t)); auto.
+        apply not_open_box. pose proof (F3 t) as Y. unfold own_open in Y.
+        rewrite Fo, OW, Nat.eqb_refl, andb_true_r in Y. exact Y.
+      * rewrite (F2 _ OW), K. simpl. rewrite ?OWb, (F2 _ OW). reflexivity.
     + (* clients *)
       intros c'. rewrite B1. simpl. rewrite get_del. deq c' c.
       * unfold upd. rewrite Nat.eqb_refl. discriminate.
@@ -600,7 +731,7 @@ Proof.
         destruct (get c' (clients s2)).
         -- destruct RC as [RC1 RC2]. deq c' c; try congruence. split; auto. intros t. rewrite RC2.
            unfold own_open. simpl. rewrite Fo.
-           destruct (owner sp t =? c) eqn:OW; [apply Nat.eqb_eq in OW|apply Nat.eqb_neq in OW].
+           destruct (owner sp t =? c) eqn:OWb; pose proof OWb as OW; [apply Nat.eqb_eq in OW|apply Nat.eqb_neq in OW].
            ++ simpl. rewrite OW. deq c c'; try congruence. rewrite andb_false_r. tauto.
            ++ rewrite F2; auto. tauto.
         -- deq c' c; congruence.
@@ -614,7 +745,7 @@ Qed.
 
 (* ------------------------------------------------------- one step, all events *)
 Lemma connect_ok : forall s sp c, Inv s sp -> cst sp c = CNew ->
-  Inv (with_clients s (set c [] (clients s))) (fst (sstep sp (Connect c))).
+  Inv (with_clients s (set c [] (clients s))) (fst (sstep dc sp (Connect c))).
 Proof.
   intros s sp c [R [S CO]] N.
   assert (NO : forall t, own_open sp c t = false).
@@ -631,25 +762,25 @@ Proof.
   - intros c' X. simpl in *. unfold upd. deq c' c; auto. apply CO in X. congruence.
 Qed.
 
-Lemma answers_result : forall sp mb v, answers (snd (sstep sp (Result mb v))) = snd (sstep sp (Result mb v)).
+Lemma answers_result : forall sp mb v, answers (snd (sstep dc sp (Result mb v))) = snd (sstep dc sp (Result mb v)).
 Proof.
   intros. simpl. destruct (tom sp mb); auto. destruct (st sp n); auto. destruct waiting; auto.
 Qed.
 
-Lemma SI_result : forall sp mb v, SI sp -> SI (fst (sstep sp (Result mb v))).
+Lemma SI_result : forall sp mb v, SI sp -> SI (fst (sstep dc sp (Result mb v))).
 Proof.
   intros sp mb v S. simpl. destruct (tom sp mb) eqn:T; auto.
   destruct (si_tom _ S _ _ T) as [K _].
   destruct (st sp n) eqn:ST; auto; try destruct waiting; simpl; apply SI_set_st; auto; rewrite ST; auto.
 Qed.
 
-Lemma cst_result : forall sp mb v, cst (fst (sstep sp (Result mb v))) = cst sp.
+Lemma cst_result : forall sp mb v, cst (fst (sstep dc sp (Result mb v))) = cst sp.
 Proof.
   intros. simpl. destruct (tom sp mb); auto. destruct (st sp n); auto. destruct waiting; auto.
 Qed.
 
 Lemma step_ok : forall s sp e, Inv s sp -> wf_ev sp e = true ->
-  exists s' o, handle true e s = Ok s' o /\ answers o = snd (sstep sp e) /\ Inv s' (fst (sstep sp e)).
+  exists s' o, handle (Fix dc) e s = Ok s' o /\ answers o = snd (sstep dc sp e) /\ Inv s' (fst (sstep dc sp e)).
 Proof.
   intros s sp e I W. pose proof I as [R [S CO]]. destruct e; simpl in W.
   - (* connect *) apply cst_is_eq in W. eexists. eexists. split; [reflexivity|]. split; [reflexivity|].
@@ -682,9 +813,9 @@ Proof.
     split.
     + rewrite answers_app. unfold ack. rewrite NC. destruct (own_open sp c t); reflexivity.
     + simpl. split; [exact R'|]. split.
-      * destruct (own_open sp c t) eqn:O; auto. apply SI_set_st; auto.
+      * destruct (own_open sp c t) eqn:O; auto. apply SI_cancelled; auto.
         apply open_known. apply (own_open_inv _ _ _ O).
-      * intros c' X. rewrite C' in X. apply CO in X. destruct (own_open sp c t); exact X.
+      * intros c' X. rewrite C' in X. apply CO in X. destruct (own_open sp c t); [destruct dc|]; exact X.
   - (* result *) destruct (result_ok s sp mb v R S) as [s' [E [R' C']]].
     exists s'. eexists. split; [exact E|]. split; [apply answers_result|].
     split; [exact R'|]. split; [apply SI_result; auto|].
@@ -702,7 +833,7 @@ Proof.
   - intros c X. contradiction.
 Qed.
 
-Lemma sstep_no_crash : forall sp e, ~ In OCrash (snd (sstep sp e)).
+Lemma sstep_no_crash : forall sp e, ~ In OCrash (snd (sstep dc sp e)).
 Proof.
   intros sp e. destruct e; simpl; try tauto;
   repeat match goal with
@@ -715,23 +846,23 @@ Lemma run_cons : forall fx s e r,
 Proof. intros. simpl. destruct (step fx s e). simpl. destruct (run fx s0 r). reflexivity. Qed.
 
 Lemma srun_cons : forall sp e r,
-  srun sp (e :: r) = (fst (srun (fst (sstep sp e)) r), snd (sstep sp e) :: snd (srun (fst (sstep sp e)) r)).
-Proof. intros. simpl. destruct (sstep sp e). simpl. destruct (srun s r). reflexivity. Qed.
+  srun dc sp (e :: r) = (fst (srun dc (fst (sstep dc sp e)) r), snd (sstep dc sp e) :: snd (srun dc (fst (sstep dc sp e)) r)).
+Proof. intros. simpl. destruct (sstep dc sp e). simpl. destruct (srun s r). reflexivity. Qed.
 
 Lemma step_inv : forall s sp e, Inv s sp -> wf_ev sp e = true ->
-  Inv (fst (step true s e)) (fst (sstep sp e))
-  /\ answers (snd (step true s e)) = snd (sstep sp e)
-  /\ ~ In OCrash (snd (step true s e)).
+  Inv (fst (step (Fix dc) s e)) (fst (sstep dc sp e))
+  /\ answers (snd (step (Fix dc) s e)) = snd (sstep dc sp e)
+  /\ ~ In OCrash (snd (step (Fix dc) s e)).
 Proof.
   intros s sp e I W. destruct (step_ok s sp e I W) as [s' [o [E [A I']]]].
   unfold step. destruct I as [R _]. rewrite (r_up _ _ R), E. simpl. split; [exact I'|split; [exact A|]].
   intro X. apply (sstep_no_crash sp e). rewrite <- A. apply filter_In. auto.
 Qed.
 
-Lemma run_ok : forall es s sp, Inv s sp -> wf_run sp es = true ->
-  Inv (fst (run true s es)) (fst (srun sp es))
-  /\ map answers (snd (run true s es)) = snd (srun sp es)
-  /\ ~ In OCrash (concat (snd (run true s es))).
+Lemma run_ok : forall es s sp, Inv s sp -> wf_run dc sp es = true ->
+  Inv (fst (run (Fix dc) s es)) (fst (srun dc sp es))
+  /\ map answers (snd (run (Fix dc) s es)) = snd (srun dc sp es)
+  /\ ~ In OCrash (concat (snd (run (Fix dc) s es))).
 Proof.
   induction es as [|e r IH]; intros s sp I W.
   - simpl. auto.
@@ -753,30 +884,30 @@ Proof.
 Qed.
 
 Lemma srun_app : forall es1 es2 sp,
-  srun sp (es1 ++ es2) = (fst (srun (fst (srun sp es1)) es2),
-                          snd (srun sp es1) ++ snd (srun (fst (srun sp es1)) es2)).
+  srun dc sp (es1 ++ es2) = (fst (srun dc (fst (srun dc sp es1)) es2),
+                          snd (srun dc sp es1) ++ snd (srun dc (fst (srun dc sp es1)) es2)).
 Proof.
   induction es1 as [|e r IH]; intros.
-  - simpl. destruct (srun sp es2); reflexivity.
+  - simpl. destruct (srun dc sp es2); reflexivity.
   - rewrite <- app_comm_cons, !srun_cons, IH. reflexivity.
 Qed.
 
 Lemma wf_run_app : forall es1 es2 sp,
-  wf_run sp (es1 ++ es2) = wf_run sp es1 && wf_run (fst (srun sp es1)) es2.
+  wf_run dc sp (es1 ++ es2) = wf_run dc sp es1 && wf_run dc (fst (srun dc sp es1)) es2.
 Proof.
   induction es1 as [|e r IH]; intros; simpl; auto.
-  rewrite IH, andb_assoc. destruct (sstep sp e). simpl. destruct (srun s r). reflexivity.
+  rewrite IH, andb_assoc. destruct (sstep dc sp e). simpl. destruct (srun s r). reflexivity.
 Qed.
 
 (* reachable states satisfy the invariant *)
-Theorem tables_inv : forall es, wf_run spec0 es = true ->
-  Inv (fst (run true init es)) (fst (srun spec0 es)).
+Theorem tables_inv : forall es, wf_run dc spec0 es = true ->
+  Inv (fst (run (Fix dc) init es)) (fst (srun dc spec0 es)).
 Proof. intros. apply (run_ok es init spec0 Inv_init H). Qed.
 
-Theorem requests_refine : forall es, wf_run spec0 es = true ->
-  map answers (snd (run true init es)) = snd (srun spec0 es)
-  /\ ~ In OCrash (concat (snd (run true init es)))
-  /\ up (fst (run true init es)) = true.
+Theorem requests_refine : forall es, wf_run dc spec0 es = true ->
+  map answers (snd (run (Fix dc) init es)) = snd (srun dc spec0 es)
+  /\ ~ In OCrash (concat (snd (run (Fix dc) init es)))
+  /\ up (fst (run (Fix dc) init es)) = true.
 Proof.
   intros. destruct (run_ok es init spec0 Inv_init H) as [[R _] [A N]]. split; [exact A|split; [exact N|apply (r_up _ _ R)]].
 Qed.
@@ -831,16 +962,16 @@ Proof.
     rewrite (r_m2t _ _ R'), (r_m2t _ _ R), (r_boxes _ _ R'), (r_boxes _ _ R), T, T', E1. auto.
 Qed.
 
-Theorem isolation : forall es e c t, wf_run spec0 (es ++ [e]) = true -> is_request e c t ->
-  own_open (fst (srun spec0 es)) c t = false ->
-  answers (snd (step true (fst (run true init es)) e)) = unknown_answer e
-  /\ (forall o, In o (answers (snd (step true (fst (run true init es)) e))) -> dest o = Some c)
-  /\ untouched c (fst (run true init es)) (fst (step true (fst (run true init es)) e)).
+Theorem isolation : forall es e c t, wf_run dc spec0 (es ++ [e]) = true -> is_request e c t ->
+  own_open (fst (srun dc spec0 es)) c t = false ->
+  answers (snd (step (Fix dc) (fst (run (Fix dc) init es)) e)) = unknown_answer e
+  /\ (forall o, In o (answers (snd (step (Fix dc) (fst (run (Fix dc) init es)) e))) -> dest o = Some c)
+  /\ untouched c (fst (run (Fix dc) init es)) (fst (step (Fix dc) (fst (run (Fix dc) init es)) e)).
 Proof.
   intros es e c t W Q O. rewrite wf_run_app in W. apply andb_true_iff in W. destruct W as [W1 W2].
   simpl in W2. rewrite andb_true_r in W2.
   pose proof (tables_inv es W1) as I.
-  set (s := fst (run true init es)) in *. set (sp := fst (srun spec0 es)) in *.
+  set (s := fst (run (Fix dc) init es)) in *. set (sp := fst (srun dc spec0 es)) in *.
   destruct (step_inv s sp e I W2) as [I' [A _]]. rewrite A.
   assert (TR : forall s', Inv s' sp -> untouched c s s').
   { intros. eapply untouched_of_spec; eauto. }
@@ -859,21 +990,21 @@ Proof.
 Qed.
 
 (* --------------------------------------------------------- error forwarding *)
-Theorem error_forwarded : forall es mb m, wf_run spec0 es = true ->
-  step true (fst (run true init es)) (Error mb m) =
-    (fst (run true init es),
-     match get mb (m2t (fst (run true init es))) with
-     | Some t => match get t (tasks (fst (run true init es))) with
+Theorem error_forwarded : forall es mb m, wf_run dc spec0 es = true ->
+  step (Fix dc) (fst (run (Fix dc) init es)) (Error mb m) =
+    (fst (run (Fix dc) init es),
+     match get mb (m2t (fst (run (Fix dc) init es))) with
+     | Some t => match get t (tasks (fst (run (Fix dc) init es))) with
                  | Some (_, c) => [OError c m]
                  | None => [] end
      | None => [] end)
-  /\ (forall t, get mb (m2t (fst (run true init es))) = Some t ->
-        get t (tasks (fst (run true init es))) = Some (mb, owner (fst (srun spec0 es)) t)
-        /\ known (st (fst (srun spec0 es)) t) = true
-        /\ cst (fst (srun spec0 es)) (owner (fst (srun spec0 es)) t) = CConnected).
+  /\ (forall t, get mb (m2t (fst (run (Fix dc) init es))) = Some t ->
+        get t (tasks (fst (run (Fix dc) init es))) = Some (mb, owner (fst (srun dc spec0 es)) t)
+        /\ known (st (fst (srun dc spec0 es)) t) = true
+        /\ cst (fst (srun dc spec0 es)) (owner (fst (srun dc spec0 es)) t) = CConnected).
 Proof.
   intros es mb m W. pose proof (tables_inv es W) as [R [S CO]].
-  set (s := fst (run true init es)) in *. set (sp := fst (srun spec0 es)) in *.
+  set (s := fst (run (Fix dc) init es)) in *. set (sp := fst (srun dc spec0 es)) in *.
   split.
   - unfold step. rewrite (r_up _ _ R). simpl. rewrite (forward_ok s sp _ mb R S).
     rewrite (r_m2t _ _ R). destruct (tom sp mb) eqn:T; auto.
@@ -883,7 +1014,7 @@ Proof.
 Qed.
 
 (* a RESULT answer is always the value of a RESULT message from below for a task of that client *)
-Lemma result_provenance_spec : forall sp e c v, In (OResult c v) (snd (sstep sp e)) ->
+Lemma result_provenance_spec : forall sp e c v, In (OResult c v) (snd (sstep dc sp e)) ->
   (exists mb t, e = Result mb v /\ tom sp mb = Some t /\ owner sp t = c /\ st sp t = TRunning true)
   \/ (exists t, e = Request c t /\ owner sp t = c /\ st sp t = TDone v).
 Proof.
@@ -900,7 +1031,7 @@ Proof.
   - destruct (tom sp mb); try contradiction. destruct H as [H|[]]. discriminate.
 Qed.
 
-Lemma done_value_spec : forall sp e t v, st (fst (sstep sp e)) t = TDone v ->
+Lemma done_value_spec : forall sp e t v, st (fst (sstep dc sp e)) t = TDone v ->
   st sp t = TDone v \/ exists mb, e = Result mb v /\ tom sp mb = Some t.
 Proof.
   intros sp e t v H. destruct e; simpl in H; auto.
@@ -916,11 +1047,11 @@ Proof.
     + simpl in H; unfold upd in H; deq t n; auto. inversion H; subst. right. exists mb. auto.
 Qed.
 
-Theorem result_provenance : forall es e c v, wf_run spec0 (es ++ [e]) = true ->
-  In (OResult c v) (snd (step true (fst (run true init es)) e)) ->
-  (exists mb t, e = Result mb v /\ tom (fst (srun spec0 es)) mb = Some t
-                /\ owner (fst (srun spec0 es)) t = c /\ st (fst (srun spec0 es)) t = TRunning true)
-  \/ (exists t, e = Request c t /\ owner (fst (srun spec0 es)) t = c /\ st (fst (srun spec0 es)) t = TDone v).
+Theorem result_provenance : forall es e c v, wf_run dc spec0 (es ++ [e]) = true ->
+  In (OResult c v) (snd (step (Fix dc) (fst (run (Fix dc) init es)) e)) ->
+  (exists mb t, e = Result mb v /\ tom (fst (srun dc spec0 es)) mb = Some t
+                /\ owner (fst (srun dc spec0 es)) t = c /\ st (fst (srun dc spec0 es)) t = TRunning true)
+  \/ (exists t, e = Request c t /\ owner (fst (srun dc spec0 es)) t = c /\ st (fst (srun dc spec0 es)) t = TDone v).
 Proof.
   intros es e c v W H. rewrite wf_run_app in W. apply andb_true_iff in W. destruct W as [W1 W2].
   simpl in W2. rewrite andb_true_r in W2.
@@ -929,7 +1060,7 @@ Proof.
 Qed.
 
 (* --------------------------------------- nothing is sent to a dropped client *)
-Lemma closed_stable : forall sp e c, wf_ev sp e = true -> cst sp c = CClosed -> cst (fst (sstep sp e)) c = CClosed.
+Lemma closed_stable : forall sp e c, wf_ev sp e = true -> cst sp c = CClosed -> cst (fst (sstep dc sp e)) c = CClosed.
 Proof.
   intros sp e c W C. destruct e; simpl in *; auto.
   - apply cst_is_eq in W. unfold upd. deq c c0; congruence.
@@ -940,7 +1071,7 @@ Proof.
 Qed.
 
 Lemma answers_to_connected : forall sp e o c, SI sp -> wf_ev sp e = true ->
-  In o (snd (sstep sp e)) -> dest o = Some c -> cst sp c = CConnected.
+  In o (snd (sstep dc sp e)) -> dest o = Some c -> cst sp c = CConnected.
 Proof.
   intros sp e o c S W H D.
   assert (K : forall mb t, tom sp mb = Some t -> cst sp (owner sp t) = CConnected).
@@ -957,25 +1088,27 @@ Proof.
   - destruct (tom sp mb) eqn:T; try contradiction. destruct H as [H|[]]. subst. inversion D. subst. eauto.
 Qed.
 
-Lemma silence_from : forall es s sp c, Inv s sp -> wf_run sp es = true -> cst sp c = CClosed ->
-  forall o, In o (concat (snd (run true s es))) -> dest o <> Some c.
+Lemma silence_from : forall es s sp c, Inv s sp -> wf_run dc sp es = true -> cst sp c = CClosed ->
+  forall o, In o (concat (snd (run (Fix dc) s es))) -> dest o <> Some c.
 Proof.
   induction es as [|e r IH]; intros s sp c I W C o H; [simpl in H; contradiction|].
   simpl in W. apply andb_true_iff in W. destruct W as [W1 W2].
   destruct (step_inv s sp e I W1) as [I1 [A1 _]].
   rewrite run_cons in H. simpl in H. apply in_app_iff in H. destruct H as [H|H].
-  - intro D. assert (X : In o (snd (sstep sp e))).
+  - intro D. assert (X : In o (snd (sstep dc sp e))).
     { rewrite <- A1. apply filter_In. split; auto. destruct o; simpl in D; try discriminate; reflexivity. }
     destruct I as [_ [S _]]. pose proof (answers_to_connected _ _ _ _ S W1 X D). congruence.
   - eapply IH; eauto. apply closed_stable; auto.
 Qed.
 
-Theorem silence_after_disconnect : forall es1 es2 c, wf_run spec0 (es1 ++ Disconnect c :: es2) = true ->
-  forall o, In o (concat (snd (run true (fst (run true init (es1 ++ [Disconnect c]))) es2))) -> dest o <> Some c.
+Theorem silence_after_disconnect : forall es1 es2 c, wf_run dc spec0 (es1 ++ Disconnect c :: es2) = true ->
+  forall o, In o (concat (snd (run (Fix dc) (fst (run (Fix dc) init (es1 ++ [Disconnect c]))) es2))) -> dest o <> Some c.
 Proof.
   intros es1 es2 c W. change (Disconnect c :: es2) with ([Disconnect c] ++ es2) in W.
   rewrite app_assoc, wf_run_app in W. apply andb_true_iff in W. destruct W as [W1 W2].
-  apply silence_from with (sp := fst (srun spec0 (es1 ++ [Disconnect c]))); auto.
+  apply silence_from with (sp := fst (srun dc spec0 (es1 ++ [Disconnect c]))); auto.
   - apply tables_inv; auto.
   - rewrite srun_app. simpl. unfold upd. rewrite Nat.eqb_refl. reflexivity.
 Qed.
+
+End WithVariant.
